@@ -334,7 +334,7 @@ func vEligible(metric DistanceKind, live map[uint32][]float32, q vVecQuery, cris
 					continue
 				}
 			} else {
-				if math.Abs(d-t) <= 1e-4*math.Max(1, math.Abs(t)) {
+				if math.Abs(d-t) <= 1e-4*math.Max(vTolFloor, math.Abs(t)) {
 					boundary = true
 				}
 				if d > t {
@@ -458,4 +458,112 @@ func vStructuredVecs(dim, n int) [][]float32 {
 		out[i] = v
 	}
 	return out
+}
+
+// ---------------------------------------------------------------------------
+// affine transforms of the data ("xf" shards): every vector handed to the index (data,
+// training set, queries) is v -> (v + Off) * 2^Exp. Off is a multiple of 1/8 below 2^21
+// and the alphabets are small dyadic numbers, so the transformed data is exactly
+// representable and Euclidean distances between transformed points are the original ones
+// times 2^Exp exactly: an index must give the same answers, scaled. What changes is the
+// float32 arithmetic of anything that is NOT a plain difference-of-coordinates formula
+// (expanded norms, absolute epsilons, early-outs).
+
+type vAffine struct {
+	Off float32
+	Exp int
+}
+
+var vXF vAffine
+
+// vTolFloor is the magnitude below which vApprox compares absolutely (1 for unscaled data).
+var vTolFloor = 1.0
+
+var vXFs = []vAffine{{0, -20}, {0, -40}, {0, 20}, {4096, 0}, {1 << 20, 0}, {4096, -20}, {20000, 0}}
+
+func (x vAffine) active() bool { return x.Off != 0 || x.Exp != 0 }
+
+func vXFTag() string {
+	if !vXF.active() {
+		return ""
+	}
+	return fmt.Sprintf(" xf=%g:%d", vXF.Off, vXF.Exp)
+}
+
+// vXFParse sets vXF (and the tolerance unit for metric) from a configuration string that
+// may carry an xf tag; the returned function restores the defaults.
+func vXFParse(cfg string, metric DistanceKind) func() {
+	i := strings.Index(cfg, " xf=")
+	if i < 0 {
+		return func() {}
+	}
+	var off float64
+	var e int
+	fmt.Sscanf(cfg[i:], " xf=%g:%d", &off, &e)
+	return vXFSet(vAffine{float32(off), e}, metric)
+}
+
+func vXFSet(x vAffine, metric DistanceKind) func() {
+	vXF = x
+	switch metric {
+	case Euclidean:
+		vTolFloor = math.Ldexp(1, x.Exp)
+	case L2Squared:
+		vTolFloor = math.Ldexp(1, 2*x.Exp)
+	default:
+		vTolFloor = 1
+	}
+	return func() { vXF = vAffine{}; vTolFloor = 1 }
+}
+
+func vXFScalar(t float32, metric DistanceKind) float32 {
+	switch metric {
+	case Euclidean:
+		return float32(math.Ldexp(float64(t), vXF.Exp))
+	case L2Squared:
+		return float32(math.Ldexp(float64(t), 2*vXF.Exp))
+	}
+	return t
+}
+
+func vXFVec(v []float32) []float32 {
+	out := make([]float32, len(v))
+	for i, x := range v {
+		out[i] = float32(math.Ldexp(float64(x+vXF.Off), vXF.Exp))
+	}
+	return out
+}
+
+func vXFVecs(vs [][]float32) [][]float32 {
+	if !vXF.active() {
+		return vs
+	}
+	out := make([][]float32, len(vs))
+	for i, v := range vs {
+		out[i] = vXFVec(v)
+	}
+	return out
+}
+
+// vXFStrip removes the xf tag from a configuration string (after vXFParse has read it).
+func vXFStrip(cfg string) string {
+	i := strings.Index(cfg, " xf=")
+	if i < 0 {
+		return cfg
+	}
+	j := strings.Index(cfg[i+1:], " ")
+	if j < 0 {
+		return cfg[:i]
+	}
+	return cfg[:i] + cfg[i+1+j:]
+}
+
+// vXFUnit: the magnitude of "one unit" of the (preprocessed) data under the current
+// transform, to the given power (1 = lengths, 2 = squared lengths); 1 for cosine, whose
+// preprocessing normalises the scale away.
+func vXFUnit(metric DistanceKind, power int) float64 {
+	if metric == Cosine {
+		return 1
+	}
+	return math.Ldexp(1, power*vXF.Exp)
 }
